@@ -403,9 +403,15 @@ pub fn gen_node(c: &GenCfg, rng: &mut Rng, level: usize, depth: usize) -> Ast {
             let n = match f.arity() {
                 Arity::One => 1,
                 Arity::Two => 2,
-                Arity::Var => 1 + rng.below(4),
+                Arity::Var => {
+                    if rng.chance(1, 25) {
+                        18 + rng.below(14)
+                    } else {
+                        1 + rng.below(4)
+                    }
+                }
             };
-            let args = (0..n).map(|_| gen_node(c, rng, 0, depth - 1)).collect();
+            let args = (0..n).map(|_| gen_node(c, rng, 0, if n > 8 { 0 } else { depth - 1 })).collect();
             return Ast::Call(f, pick_spelling(f, rng), args);
         }
         if k < 96 && c.imul && level <= 6 {
@@ -687,6 +693,32 @@ pub fn bombs(ev: Ev) -> Vec<String> {
     v.push("1".to_string() + &"+1".repeat(127));
     v.push("1".to_string() + &"^1".repeat(127));
     v.push("2".to_string() + &"²".repeat(255));
+    // long aggregate argument lists with non-finite, failing and placeholder arguments in every position class
+    {
+        let specials: Vec<&str> = match ev {
+            Ev::I64 => vec!["@", "1/0", "(0-9223372036854775807-1)", "9223372036854775807", "0", "(-1)"],
+            Ev::Cpx => vec![],
+            _ => vec!["0/0", "@", "1/0", "(-1/0)", "w(-5)", "(0-0)", "0.5", "(-0.0)"],
+        };
+        let aggs: Vec<&str> = if ev == Ev::I64 { vec!["min", "max", "avg", "med", "median", "gcd", "lcm"] } else { vec!["min", "max", "avg", "med", "median"] };
+        for f in &aggs {
+            for sp in &specials {
+                for n in [3usize, 8, 20, 21, 22, 33, 50] {
+                    for pos in [0usize, n / 2, n - 1] {
+                        let mut args: Vec<String> = (0..n).map(|i| (((i * 37 + 11) % 97) as i64 - 20).to_string()).map(|t| if t.starts_with('-') { format!("({})", t) } else { t }).collect();
+                        args[pos] = sp.to_string();
+                        if n > 20 {
+                            args[(pos + 7) % n] = sp.to_string();
+                        }
+                        let e = format!("{}({})", f, args.join(","));
+                        if e.chars().count() <= 256 {
+                            v.push(e);
+                        }
+                    }
+                }
+            }
+        }
+    }
     v.push("min(".to_string() + &"1,".repeat(125) + "1)");
     v.push("med(".to_string() + &"1,".repeat(125) + "1)");
     v.push("gcd(".to_string() + &"6,".repeat(125) + "4)");
